@@ -428,6 +428,18 @@ impl Space for AddDays {
             return;
         };
         out.nontrivial += 1;
+        // a date-time of that day (its last nanosecond) reports the same date fields and derived fields
+        if let Oc::Ok(dt) = call(|| temporal_rs::PlainDateTime::try_new(y as i32, m, d, 23, 59, 59, 999, 999, 999, temporal_rs::Calendar::default())) {
+            let of_date = call(|| Ok(((date.year(), date.month(), date.month_code().as_str().to_string(), date.day(), date.day_of_week(), date.day_of_year(), date.week_of_year()?, date.year_of_week()?), (date.days_in_week()?, date.days_in_month(), date.days_in_year(), date.months_in_year(), date.in_leap_year(), date.era().map(|e| e.to_string()), date.era_year()))));
+            let of_dt = call(|| Ok(((dt.year(), dt.month(), dt.month_code().as_str().to_string(), dt.day(), dt.day_of_week(), dt.day_of_year(), dt.week_of_year()?, dt.year_of_week()?), (dt.days_in_week()?, dt.days_in_month(), dt.days_in_year(), dt.months_in_year(), dt.in_leap_year(), dt.era().map(|e| e.to_string()), dt.era_year()))));
+            if let Oc::Ok(w) = of_date {
+                out.lockstep("PlainDateTime date getters = those of its date", &Ok(format!("{w:?}")), &of_dt.map(|x| format!("{x:?}")), |a, b| a == b, || vec![("date", format!("{y:+05}-{m:02}-{d:02}"))]);
+            }
+            let back = call(|| dt.to_plain_date());
+            out.lockstep("PlainDateTime::to_plain_date", &Ok((y, m, d)), &back, |a, b| (b.iso_year() as i64, b.iso_month(), b.iso_day()) == *a, || vec![("date", format!("{y:+05}-{m:02}-{d:02}"))]);
+            let t = call(|| dt.to_plain_time());
+            out.lockstep("PlainDateTime::to_plain_time", &Ok((23u8, 59u8, 59u8, 999u16, 999u16, 999u16)), &t, |a, b| (b.hour(), b.minute(), b.second(), b.millisecond(), b.microsecond(), b.nanosecond()) == *a, || vec![("date", format!("{y:+05}-{m:02}-{d:02}"))]);
+        }
         for n in &self.ns {
             let attrs = || vec![("date", format!("{y:+05}-{m:02}-{d:02}")), ("n", n.to_string()), ("month", m.to_string()), ("day_plus_n", (d as i64 + n).to_string())];
             let target = e + n;
